@@ -137,7 +137,11 @@ def get_type_graph(t: type) -> graphlib.TopologicalSorter[TypeNode]:
             # We detected a cyclic type,
             #   wrap in a ForwardRef and don't add it to the stack
             #   This will terminate this edge to prevent infinite cycles.
-            if is_visited and can_be_cyclic:
+            if is_visited and can_be_cyclic and not inspect.isclass(unwrapped):
+                # Subscripted generics and unions can't be named by a reference,
+                #   so we defer the type itself, it will be resolved lazily.
+                node = TypeNode(type=child, unwrapped=unwrapped, var=var, cyclic=True)
+            elif is_visited and can_be_cyclic:
                 qualname = inspection.qualname(child)
                 *rest, refname = qualname.split(".", maxsplit=1)
                 is_argument = var is not None
@@ -177,7 +181,7 @@ class TypeNode:
     """The unwrapped type annotation for this node."""
     var: str | None = None
     """The variable or parameter name associated to the type annotation for this node."""
-    cyclic: bool = dataclasses.field(default=False, hash=False, compare=False)
+    cyclic: bool = False
     """Whether this type annotation is cyclic."""
 
     def __post_init__(self):
